@@ -9,6 +9,7 @@ list contains exactly the occurring variables).  Extra coordinates are irrelevan
 import Smooth.Proofs.Reverse
 import Smooth.Proofs.Coords
 import Smooth.Model.Objects
+import Smooth.Proofs.NoMissingInst
 
 namespace Smooth
 open Expr
@@ -56,6 +57,63 @@ theorem eval_extra_coordinates (p q : Point ℝ) (e : Expr ℝ)
 theorem fwd_extra_coordinates (p q : Point ℝ) (x : String) (e : Expr ℝ)
     (h : ∀ y, Occurs y e → p.get? y = q.get? y) : fwdG realNum p x e = fwdG realNum q x e :=
   fwdG_congr_occurs realNum x e h
+
+/-- reverse mode, and the whole gradient, read only occurring coordinates as well -/
+theorem rev_extra_coordinates (p q : Point ℝ) (e : Expr ℝ)
+    (h : ∀ y, Occurs y e → p.get? y = q.get? y) (m : ℝ) (acc : Acc ℝ) :
+    revG realNum p e m acc = revG realNum q e m acc :=
+  revG_congr_occurs realNum e h m acc
+
+theorem numericPartials_extra_coordinates (p q : Point ℝ) (e : Expr ℝ)
+    (h : ∀ y, Occurs y e → p.get? y = q.get? y) :
+    numericPartials realNum p e = numericPartials realNum q e :=
+  numericPartials_congr_occurs realNum e h
+
+/-- the gradient at a supplied point never answers `CoordinateMissing` -/
+theorem numericPartials_supplied_no_missing (p : Point ℝ) (e : Expr ℝ) (hs : Supp p e) :
+    numericPartials realNum p e ≠ .error .missing :=
+  numericPartials_not_missing noMissing_realNum p e hs
+
+/-- `CoordinateMissing` from evaluation names a real gap: some occurring variable has no
+coordinate (so the error is never raised "for" a variable that does not occur) -/
+theorem eval_missing_lacks (p : Point ℝ) (e : Expr ℝ) (h : evalG realNum p e = .error .missing) :
+    ∃ x, Occurs x e ∧ p.get? x = none :=
+  evalG_missing_lacks noMissing_realNum p e h
+
+/-- The same statements for **every** number instance the driver runs (exact rationals, the two
+float instances): none of them needs well-formedness, and `NoMissing N` only says that the
+instance's own primitives never answer `missing`. -/
+theorem generic_coordinates {α : Type} (N : Num α) (hN : NoMissing N) (p : Point α) (e : Expr α) :
+    (Supp p e → evalG N p e ≠ .error .missing) ∧
+    (Supp p e → ∀ x, fwdG N p x e ≠ .error .missing) ∧
+    (Supp p e → ∀ m acc, revG N p e m acc ≠ .error .missing) ∧
+    (Supp p e → numericPartials N p e ≠ .error .missing) ∧
+    (∀ x, Occurs x e → p.get? x = none → ∀ v, evalG N p e ≠ .ok v) ∧
+    (∀ q : Point α, (∀ y, Occurs y e → p.get? y = q.get? y) →
+      evalG N p e = evalG N q e ∧ (∀ x, fwdG N p x e = fwdG N q x e) ∧
+      (∀ m acc, revG N p e m acc = revG N q e m acc) ∧
+      numericPartials N p e = numericPartials N q e) :=
+  ⟨evalG_not_missing hN p e, fun hs x => fwdG_not_missing hN p x e hs,
+   fun hs m acc => revG_not_missing hN p e hs m acc, numericPartials_not_missing hN p e,
+   fun x hx hp v => evalG_not_ok_of_lacking N p e x hx hp v,
+   fun _ h => ⟨evalG_congr_occurs N e h, fun x => fwdG_congr_occurs N x e h,
+     fun m acc => revG_congr_occurs N e h m acc, numericPartials_congr_occurs N e h⟩⟩
+
+/-- … instantiated: the exact-rational instance and the double-with-error-bound instance (every
+comparison mode) that the correspondence driver executes satisfy all of `generic_coordinates`. -/
+theorem driver_instances_coordinates :
+    (∀ (p : Point QE) (e : Expr QE), Supp p e → evalG qeNum p e ≠ .error .missing ∧
+      (∀ x, fwdG qeNum p x e ≠ .error .missing) ∧ numericPartials qeNum p e ≠ .error .missing) ∧
+    (∀ (mode : Nat) (p : Point FB) (e : Expr FB), Supp p e →
+      evalG (fbNum mode) p e ≠ .error .missing ∧
+      (∀ x, fwdG (fbNum mode) p x e ≠ .error .missing) ∧
+      numericPartials (fbNum mode) p e ≠ .error .missing) :=
+  ⟨fun p e hs =>
+      let g := generic_coordinates qeNum noMissing_qeNum p e
+      ⟨g.1 hs, g.2.1 hs, g.2.2.2.1 hs⟩,
+   fun mode p e hs =>
+      let g := generic_coordinates (fbNum mode) (noMissing_fbNum mode) p e
+      ⟨g.1 hs, g.2.1 hs, g.2.2.2.1 hs⟩⟩
 
 /-- a bare number is accepted in place of a point exactly for expressions with at most one
 variable (see also `atNumber_usage_iff` in C01) … -/
